@@ -25,6 +25,13 @@ The harness replays every emitted state on the real mystic functions:
                    exactly 0.0, no other weight lost;
   sequences        feed the real output of call 1 into call 2 and compare the observables in `det` with
                    the ones TLC printed for the final state.
+Second and third part (harness/c18_stats.py): specs/math/Stats.tla (EXTENDS Moments: standardised moments,
+extrema and tol= forms, weighted_select, a second trimming catalogue with its post-condition table, the
+normalisation case table; the order-statistic transforms as actions, checked by TLC in the *_facts run) and
+specs/math/StatsDist.tla (two point sets; distance matrices / pairwise / reduced forms, Lnorm(p, axis), Lipschitz
+quantities, feasibility; moves swap / translate / negate / reverse with their invariants).  Same scheme: TLC
+emits every state of the bounded class with the expected values, the harness calls the real functions.
+
 Tolerance (fixed): |got - exact| <= 1e-12 + 1e-9 * |exact|.  The measuring instruments are calibrated
 against TLC on every initial state (exact equality on the integer input, else machinery failure).
 "raises" and "returns nan where the operation is defined" are reported under keys of their own.
@@ -32,10 +39,16 @@ against TLC on every initial state (exact equality on the integer input, else ma
 import math, time
 from harness.core import Check, tier_seed, assert_repo, main_guard
 from harness.tlc import run_tlc
+from harness import c18_stats
 
 MODULE = "math/MC_Moments"
+
+
+def module_of(cfg):
+    """the TLC module a cfg file belongs to (MC_<Module>_<what>.cfg)"""
+    return "math/" + ("MC_StatsDist" if cfg.startswith("MC_StatsDist") else "MC_Stats" if cfg.startswith("MC_Stats") else "MC_Moments")
 CACHE = {}            # job -> printed values of the TLC run (selftest: TLC once, replay per mutant)
-CORRUPT = {"on": False}
+CORRUPT = {"on": False, "stats": False}      # selftest: corrupt an expected value of the Moments / of the Stats + StatsDist emissions
 
 
 # ------------------------------------------------------------------------------------------ helpers
@@ -230,6 +243,73 @@ class Res(object):
             v[1].append((detail, what))
 
 
+# ------------------------------------------------------------------------------------------ post-conditions
+def replay_postconditions(mm, hdr, obs, S, W, Wcall, vname, s_i, w_i, nontriv, res, mark=""):
+    """every (row, target) of the post-condition table hdr["ops"] on one state: call the real transform, measure the
+    result exactly, require `reach` = target and every `keep` observable = the value TLC printed for the input.
+    mark: suffix of the clause names (the table of Stats.tla indexes the second trimming catalogue)"""
+    ks = hdr["ks"]
+    n = len(s_i)
+    for ri, row in enumerate(hdr["ops"]):
+        fn = row["fn"]
+        if row["needs"]["o"] and look(obs, row["needs"])[0] == 0:
+            continue                                   # operation not defined here (degenerate)
+        cur = look(obs, row["reach"])
+        if undef(cur):
+            continue
+        f = getattr(mm, fn)
+        for t in row["targets"]:
+            goal = (t[0] * t[0], t[1] * t[1]) if row["sq"] else (t[0], t[1])
+            tf = t[0] / t[1]
+            clause = fn + ("[order=%d]" % row["ord"] if row["ord"] else "") + ("[k]" if row["k"] else "") + mark + ("[clip]" if row["clip"] else "")
+            res.case(clause, goal[0] * cur[1] != cur[0] * goal[1])
+            ctx = {"fn": fn, "row": {k: row[k] for k in ("k", "clip", "ord", "sq")}, "target": t, "samples": s_i, "weights": w_i,
+                   "container": vname, "weights_arg": "None" if Wcall is None else "given"}
+            try:
+                if fn in ("normalize",):
+                    s2, w2 = S, f(W, tf)
+                elif fn in ("impose_sum", "impose_product"):
+                    s2, w2 = S, f(tf, W)
+                elif fn == "impose_weight_norm":
+                    s2, w2 = f(S, W, tf)
+                elif fn == "impose_moment":
+                    s2, w2 = (f(tf, S, Wcall, order=row["ord"], skew=False) if row["ord"] % 2 else f(tf, S, Wcall, order=row["ord"])), W
+                elif row["k"]:
+                    s2, w2 = f(tf, S, Wcall, k=kw_k(ks[row["k"] - 1]), clip=row["clip"]), W
+                else:
+                    s2, w2 = f(tf, S, Wcall), W
+            except Exception as ex:
+                res.violation("%s:raises-%s" % (clause, type(ex).__name__), dict(ctx, error=repr(ex)[:300]),
+                              "%s(%s) on samples %s weights %s raised %r" % (clause, tf, s_i, w_i, ex))
+                continue
+            if len(s2) != n or len(w2) != n or not finite(s2) or not finite(w2):
+                res.violation("%s:returns-nan-where-defined" % clause, dict(ctx, got=[repr(s2), repr(w2)]),
+                              "%s(%s) on samples %s weights %s is defined (spec) but mystic returned %r" % (clause, tf, s_i, w_i, s2))
+                continue
+            s2q, w2q = ivec(s2), ivec(w2)
+            got = measure(row["reach"], s2q, w2q, ks)
+            if got is None or not qclose(got, goal):
+                res.violation("%s:target-missed(%s)" % (clause, row["reach"]["o"]),
+                              dict(ctx, result=[float(x) for x in s2], result_weights=[float(x) for x in w2],
+                                   measured=fl(got), wanted=fl(goal)),
+                              "%s(%s) on samples %s weights %s: %s of the result is %s, wanted %s" % (
+                                  clause, tf, s_i, w_i, row["reach"]["o"], fl(got), fl(goal)))
+            for kref in row["keep"]:
+                before = look(obs, kref)
+                if undef(before):
+                    continue
+                g2 = measure(kref, s2q, w2q, ks)
+                if g2 is None or not qclose(g2, before):
+                    res.violation("%s:%s-not-kept" % (clause, kref["o"]),
+                                  dict(ctx, result=[float(x) for x in s2], result_weights=[float(x) for x in w2],
+                                       measured=fl(g2), before=before),
+                                  "%s(%s) on samples %s weights %s: %s was %s/%s, is %s afterwards" % (
+                                      clause, tf, s_i, w_i, kref["o"], before[0], before[1], fl(g2)))
+            if len(res.samples) < 3 and fn == "impose_variance" and nontriv and n >= 3 and not any(x.get("clause") == fn for x in res.samples):
+                res.samples.append({"clause": fn, "target": t, "samples": s_i, "weights": w_i, "result": [float(x) for x in s2],
+                                    "spec": {"var": t, "mean_kept": obs["mean"]}})
+
+
 # ------------------------------------------------------------------------------------------ definitions
 def kw_k(k):
     return k[0] if k[0] == k[1] else (k[0], k[1])
@@ -354,64 +434,7 @@ def replay_defs_state(mods, hdr, st, idx, res):
     # ---------------------------------------------------------------- single-call post-conditions
     vname, S, W = variants[idx % 2]
     Wcall = None if (allones and idx % 3 == 0) else W
-    for ri, row in enumerate(hdr["ops"]):
-        fn = row["fn"]
-        if row["needs"]["o"] and look(obs, row["needs"])[0] == 0:
-            continue                                   # operation not defined here (degenerate)
-        cur = look(obs, row["reach"])
-        if undef(cur):
-            continue
-        f = getattr(mm, fn)
-        for t in row["targets"]:
-            goal = (t[0] * t[0], t[1] * t[1]) if row["sq"] else (t[0], t[1])
-            tf = t[0] / t[1]
-            clause = fn + ("[order=%d]" % row["ord"] if row["ord"] else "") + ("[k]" if row["k"] else "") + ("[clip]" if row["clip"] else "")
-            res.case(clause, goal[0] * cur[1] != cur[0] * goal[1])
-            ctx = {"fn": fn, "row": {k: row[k] for k in ("k", "clip", "ord", "sq")}, "target": t, "samples": s_i, "weights": w_i,
-                   "container": vname, "weights_arg": "None" if Wcall is None else "given"}
-            try:
-                if fn in ("normalize",):
-                    s2, w2 = S, f(W, tf)
-                elif fn in ("impose_sum", "impose_product"):
-                    s2, w2 = S, f(tf, W)
-                elif fn == "impose_weight_norm":
-                    s2, w2 = f(S, W, tf)
-                elif fn == "impose_moment":
-                    s2, w2 = (f(tf, S, Wcall, order=row["ord"], skew=False) if row["ord"] % 2 else f(tf, S, Wcall, order=row["ord"])), W
-                elif row["k"]:
-                    s2, w2 = f(tf, S, Wcall, k=kw_k(ks[row["k"] - 1]), clip=row["clip"]), W
-                else:
-                    s2, w2 = f(tf, S, Wcall), W
-            except Exception as ex:
-                res.violation("%s:raises-%s" % (clause, type(ex).__name__), dict(ctx, error=repr(ex)[:300]),
-                              "%s(%s) on samples %s weights %s raised %r" % (clause, tf, s_i, w_i, ex))
-                continue
-            if len(s2) != n or len(w2) != n or not finite(s2) or not finite(w2):
-                res.violation("%s:returns-nan-where-defined" % clause, dict(ctx, got=[repr(s2), repr(w2)]),
-                              "%s(%s) on samples %s weights %s is defined (spec) but mystic returned %r" % (clause, tf, s_i, w_i, s2))
-                continue
-            s2q, w2q = ivec(s2), ivec(w2)
-            got = measure(row["reach"], s2q, w2q, ks)
-            if got is None or not qclose(got, goal):
-                res.violation("%s:target-missed(%s)" % (clause, row["reach"]["o"]),
-                              dict(ctx, result=[float(x) for x in s2], result_weights=[float(x) for x in w2],
-                                   measured=fl(got), wanted=fl(goal)),
-                              "%s(%s) on samples %s weights %s: %s of the result is %s, wanted %s" % (
-                                  clause, tf, s_i, w_i, row["reach"]["o"], fl(got), fl(goal)))
-            for kref in row["keep"]:
-                before = look(obs, kref)
-                if undef(before):
-                    continue
-                g2 = measure(kref, s2q, w2q, ks)
-                if g2 is None or not qclose(g2, before):
-                    res.violation("%s:%s-not-kept" % (clause, kref["o"]),
-                                  dict(ctx, result=[float(x) for x in s2], result_weights=[float(x) for x in w2],
-                                       measured=fl(g2), before=before),
-                                  "%s(%s) on samples %s weights %s: %s was %s/%s, is %s afterwards" % (
-                                      clause, tf, s_i, w_i, kref["o"], before[0], before[1], fl(g2)))
-            if len(res.samples) < 3 and fn == "impose_variance" and nontriv and n >= 3 and not any(x.get("clause") == fn for x in res.samples):
-                res.samples.append({"clause": fn, "target": t, "samples": s_i, "weights": w_i, "result": [float(x) for x in s2],
-                                    "spec": {"var": t, "mean_kept": obs["mean"]}})
+    replay_postconditions(mm, hdr, obs, S, W, Wcall, vname, s_i, w_i, nontriv, res)
 
     # ---------------------------------------------------------------- support surgery
     sels = sel_tab[n - 1]
@@ -619,7 +642,7 @@ def run_job(job, only=None):
     if job in CACHE:
         printed, res.tlc = CACHE[job]
     else:
-        r = run_tlc(MODULE, cfg=cfg, workers=1, env={"NSHARDS": nsh, "SHARD": sh}, timeout=3400, heap="3g")
+        r = run_tlc(module_of(cfg), cfg=cfg, workers=1, env={"NSHARDS": nsh, "SHARD": sh}, timeout=3400, heap="3g")
         res.tlc = {"cfg": cfg, "distinct": r.distinct, "generated": r.generated, "depth": r.depth, "wall_s": r.wall_s,
                    "violated": r.violated, "out": r.out[-3000:] if r.violated else ""}
         printed = r.printed
@@ -627,8 +650,10 @@ def run_job(job, only=None):
             return printed, res.tlc
     if res.tlc.get("violated"):
         res.spec_violated = res.tlc["violated"]
-    if kind == "facts":            # design invariants only (one call deep, incl. the trimming / median facts): nothing to replay
+    if kind in ("facts", "statsfacts"):   # design invariants only (one call deep, incl. the trimming / median facts): nothing to replay
         return res
+    if kind in ("stats", "dist"):
+        return run_stats_job(kind, job, printed, res, only)
     if not printed or not isinstance(printed[0], dict) or "ops" not in printed[0]:
         raise RuntimeError("TLC output of %s has no header" % (job,))
     hdr = printed[0]
@@ -655,11 +680,63 @@ def run_job(job, only=None):
     return res
 
 
+class Helpers(object):
+    """what harness/c18_stats.py borrows from this module"""
+
+
+def helpers():
+    H = Helpers()
+    for name in ("close", "qclose", "ivec", "finite", "undef", "fl", "look", "measure", "kw_k", "replay_postconditions"):
+        setattr(H, name, globals()[name])
+    return H
+
+
+def run_stats_job(kind, job, printed, res, only=None):
+    """replay of the Stats / StatsDist emissions (second and third part of the specification)"""
+    import numpy as np
+    import mystic.math.measures as mm
+    import mystic.math.distance as md
+    key = "stats" if kind == "stats" else "dist"
+    hdrs = [x for x in printed if isinstance(x, dict) and x.get(key) is True]
+    if not hdrs:
+        raise RuntimeError("TLC output of %s has no %s header" % (job, key))
+    hdr = hdrs[0]
+    tabs = [x for x in printed if isinstance(x, dict) and x.get("normtable") is True]
+    hdr["norm"] = tabs[0]["norm"] if tabs else []         # the normalisation case table (shard 0 only)
+    states = [x for x in printed if isinstance(x, dict) and "obs" in x]
+    if any(not isinstance(x, dict) for x in printed):
+        raise RuntimeError("unparsed TLC line in %s" % (job,))
+    if only is not None:
+        states = [x for x in states if only(x)]
+    H = helpers()
+    mods = (mm, md, np)
+    c18_stats.CORRUPT["on"] = CORRUPT.get("stats", False)
+    sh = job[3]
+    if kind == "stats":
+        hdr["_refs"] = refs_of(hdr)
+        for idx, st in enumerate(states):
+            c18_stats.replay_stats_state(H, mods, hdr, st, idx + sh, res)
+        if only is None:
+            c18_stats.replay_norm_cases(H, mods, hdr, res)
+    else:
+        for idx, st in enumerate(states):
+            c18_stats.replay_dist_state(H, mods, hdr, st, idx + sh, res)
+    return res
+
+
 def mix(s, w):
     """the shard hash MixTo of Moments.tla (only decides which TLC process emits a state)"""
     h = 0
     for a_, b_ in zip(s, w):
         h = (h * 3 + a_ + 7 * b_ + 40) % 1000003
+    return h
+
+
+def dist_hash(x, y):
+    """the shard hash of StatsDist.tla"""
+    h = 0
+    for v in [c for p_ in x for c in p_] + [c for p_ in y for c in p_]:
+        h = (h * 5 + v + 11) % 1000003
     return h
 
 
@@ -669,42 +746,77 @@ def do_replay(a):
     import json
     art = json.load(open(a.replay))
     d = art["detail"]
+    thorough = art.get("tier") == "thorough"
     if "init" in d:
         s, w = d["init"]
         hist = d["hist"]
-        job = ("seq", "MC_Moments_seq_quick.cfg", 64, mix(s, w) % 64)
-        only = lambda x: x["init"] == [s, w] and x["hist"] == hist
+        jobs = [(("seq", "MC_Moments_seq_quick.cfg", 64, mix(s, w) % 64), lambda x: x["init"] == [s, w] and x["hist"] == hist)]
+        what = "init=%s %s hist=%s" % (s, w, hist)
+    elif "x" in d and "y" in d:                      # StatsDist: the state is a pair of point sets
+        x, y = d["x"], d["y"]
+        only = lambda st: st["x"] == x and st["y"] == y
+        jobs = [(("dist", "MC_StatsDist_thorough.cfg" if thorough else "MC_StatsDist_quick.cfg", 16, dist_hash(x, y) % 16), only),
+                (("dist", "MC_StatsDist_moves_thorough.cfg" if thorough else "MC_StatsDist_moves_quick.cfg", 1, 0), only)]
+        what = "x=%s y=%s" % (x, y)
+    elif "kind" in d and "zmass" in d:               # the normalisation case table of Stats (emitted by shard 0)
+        jobs = [(("stats", "MC_Stats_defs_thorough.cfg" if thorough else "MC_Stats_defs_quick.cfg", 4096, 0), "norm")]
+        what = "normalisation case table"
     else:
         s, w = d["samples"], d["weights"]
-        cfg = "MC_Moments_defs_len4.cfg" if len(s) == 4 else ("MC_Moments_defs_thorough.cfg" if art.get("tier") == "thorough" else "MC_Moments_defs_quick.cfg")
-        job = ("defs", cfg, 64, mix(s, w) % 64)
+        cfg = "MC_Moments_defs_len4.cfg" if len(s) == 4 else ("MC_Moments_defs_thorough.cfg" if thorough else "MC_Moments_defs_quick.cfg")
         only = lambda x: [v[0] for v in x["s"]] == s and [v[0] for v in x["w"]] == w
-    r = run_job(job, only=only)
-    print("replayed %d case(s) of the state samples=%s weights=%s (%s)" % (r.cases, s, w, job[1]))
-    for k, (cnt, dets) in sorted(r.viol.items()):
+        jobs = [(("defs", cfg, 64, mix(s, w) % 64), only),
+                (("stats", cfg.replace("MC_Moments", "MC_Stats"), 64, mix(s, w) % 64), only)]
+        what = "samples=%s weights=%s" % (s, w)
+    cases, viol = 0, {}
+    for job, only in jobs:
+        r = run_job(job, only=None if only == "norm" else only)
+        cases += r.cases
+        for k, v in r.viol.items():
+            viol.setdefault(k, v)
+    print("replayed %d case(s) of the state %s (%s)" % (cases, what, ", ".join(j[0][1] for j in jobs)))
+    for k, (cnt, dets) in sorted(viol.items()):
         print("VIOLATION property=C18 class=%s count=%d" % (k, cnt))
-        for det, what in dets[:1]:
-            print("  " + what[:600])
-    if r.cases == 0:
+        for det, what_ in dets[:1]:
+            print("  " + what_[:600])
+    if cases == 0:
         raise RuntimeError("TLC did not emit the state of %s" % a.replay)
-    return 1 if art["key"] in r.viol else 0
+    return 1 if art["key"] in viol else 0
 
 
 def plan(a):
+    """jobs in the order of their expected duration (longest first; the pool hands them out one by one)"""
     jobs = []
     if a.tier == "quick":
         nd = 12
-        jobs += [("defs", "MC_Moments_defs_quick.cfg", nd, i) for i in range(nd)]
         ns, take = 64, 2
         jobs += [("seq", "MC_Moments_seq_quick.cfg", ns, (a.seed * take + i) % ns) for i in range(take)]
         jobs += [("facts", "MC_Moments_facts.cfg", 16, a.seed % 16)]
+        jobs += [("stats", "MC_Stats_defs_quick.cfg", 3, i) for i in range(3)]
+        jobs += [("defs", "MC_Moments_defs_quick.cfg", nd, i) for i in range(nd)]
+        jobs += [("dist", "MC_StatsDist_quick.cfg", 1, 0)]
+        jobs += [("statsfacts", "MC_Stats_facts.cfg", 16, a.seed % 16)]
+        jobs += [("dist", "MC_StatsDist_moves_quick.cfg", 1, 0)]
     else:
         n4, nd, ns = 64, 16, 64
         jobs += [("defs", "MC_Moments_defs_len4.cfg", n4, i) for i in range(n4)]       # longest jobs first
         jobs += [("seq", "MC_Moments_seq_thorough.cfg", ns, i) for i in range(ns)]
+        jobs += [("stats", "MC_Stats_defs_len4.cfg", 32, i) for i in range(32)]
+        jobs += [("dist", "MC_StatsDist_thorough.cfg", 16, i) for i in range(16)]
         jobs += [("defs", "MC_Moments_defs_thorough.cfg", nd, i) for i in range(nd)]
+        jobs += [("stats", "MC_Stats_defs_thorough.cfg", 16, i) for i in range(16)]
+        jobs += [("dist", "MC_StatsDist_moves_thorough.cfg", 8, i) for i in range(8)]
         jobs += [("facts", "MC_Moments_facts.cfg", 8, i) for i in range(8)]
+        jobs += [("statsfacts", "MC_Stats_facts.cfg", 8, i) for i in range(8)]
     return jobs
+
+
+def timed_job(job):
+    t0 = time.time()
+    r = run_job(job)
+    if isinstance(r, Res):
+        r.started, r.wall = t0, time.time() - t0
+    return r
 
 
 def pool_map(fn, jobs, nproc):
@@ -725,7 +837,19 @@ RULE = ("TLC enumerates every (samples, weights) with weights over {0..3} (not a
         "over {-1,0,2} x weights {0,1,3}; quick replays 2 of its 64 shards chosen by the seed, thorough all). Cases are "
         "distinct by construction (TLC emits each state once, each clause is enumerated once per state). Non-trivial: "
         "definitions on a state with non-zero variance; a transform whose target differs from the current value; a "
-        "selection that removes non-zero weight; a sequence of two calls")
+        "selection that removes non-zero weight; a sequence of two calls. "
+        "Second part (Stats.tla): every (samples, weights) of length 1-3 over {-1,0,2} x weights {0..3} (quick) / length 1-3 over "
+        "{-3..3} plus length 4 over {-1,0,2} (thorough); clauses 'definitions[stats]' (standard_moment/skewness/kurtosis, "
+        "maximum/minimum/ptp, ess_* and support/expectation/expected_variance with tol, mean/moment with tol, norm, weighted_select "
+        "with 8 scripted draws x 2 masses, tmean/tvariance/tstd over 7 more trimming entries, trimmed and winsorised), one (transform, "
+        "target) of the table over the second trimming catalogue ('{K2}'), one row of the normalisation case table (all weight "
+        "vectors of length 1-3 over {-1..3} (quick) / length 1-3 over {-3..3} and length 4 over {-1..3} (thorough); mass as number, 0, zsum/zmass, 'l1'-'l3'; impose_product "
+        "zsum). Third part (StatsDist.tla): every pair of point sets (m x k points of dimension d, coordinates {-1,0,2}) for the "
+        "shapes in MC_StatsDist (quick: m,k,d <= 2 without 2x2x2; thorough: up to 3 points / 3 dimensions), one case 'distances[mxkxd]' = all metrics as matrix / pairwise / reduced / self / dmin, "
+        "minkowski(p), absolute_distance, Lnorm(p, axis), lipschitz_metric, lipschitz_distance(tol, cutoff), infeasibility, "
+        "is_feasible; plus the states reached by one move (swap, translate, negate, reverse coordinates) from every pair incl. 2x2x2 "
+        "(quick: coordinates {0,2}). Non-trivial there: "
+        "non-degenerate variance; two point sets that are not all equal")
 
 
 def new_check(a):
@@ -735,7 +859,7 @@ def new_check(a):
 def explore(ck, a, quiet=False):
     jobs = plan(a)
     t0 = time.time()
-    results = pool_map(run_job, jobs, a.jobs)
+    results = pool_map(timed_job, jobs, a.jobs)
     per_cfg = {}
     clauses = {}
     exhaustive = True
@@ -762,19 +886,32 @@ def explore(ck, a, quiet=False):
             x[0] += c_
             x[1] += n_
     for cfg, c in sorted(per_cfg.items()):
-        ck.mc(c, "Moments/" + cfg + " (%d shards)" % c["shards"])
-    want = {"definitions", "impose_variance", "impose_collapse", "sequence"}
+        ck.mc(c, module_of(cfg)[len("math/MC_"):] + "/" + cfg + " (%d shards)" % c["shards"])
+    want = {"definitions", "impose_variance", "impose_collapse", "sequence", "definitions[stats]", "normalize[zsum]", "distances"}
     for r in results:
         for s in r.samples:
             if s.get("clause") in want:
                 want.discard(s["clause"])
-                ck.sample(s)
+                ck.sample(s, limit=8)
     ck.exhaustive = a.tier == "thorough"
     ck.extra["clauses"] = {k: {"cases": v[0], "nontrivial": v[1]} for k, v in sorted(clauses.items())}
+    ck.extra["jobs"] = ["%s %s shard %d/%d: start +%.0fs, %.0fs" % (j[0], j[1], j[3], j[2], r.started - t0, r.wall)
+                        for j, r in zip(jobs, results)] if a.tier == "quick" else len(jobs)
     ck.extra["tolerance"] = "abs 1e-12 + rel 1e-9 against the exact rational"
     ck.extra["sequence_shards_replayed"] = "all" if a.tier == "thorough" else "2 of 64 (by seed)"
     ck.assumptions = [
-        "TLC and the transcription of the textbook definitions into Moments.tla (rationals <<num,den>>; roots compared in squared/cubed form)",
+        "TLC and the transcription of the textbook definitions into Moments.tla / Stats.tla / StatsDist.tla (rationals <<num,den>>; "
+        "roots compared in squared/cubed form; a squared standard moment is emitted as a list of rational factors)",
+        "standardised moments, skewness and kurtosis are judged only for non-degenerate variance; ess_* only where the support "
+        "(weights > tol) is not empty; expectation with tol only where some weight exceeds tol; mean/moment with tol= are not judged "
+        "for a mean below -tol (the sentence 'any mean <= tol is zero' has two readings there)",
+        "weighted_select is judged with the uniform draw supplied by the harness (mystic.tools.random_state replaced by a scripted "
+        "source during the call); draws are 0 and multiples of 1/97, never on a cumulative-weight boundary",
+        "trimming that cuts everything (lo + hi >= 100): the trimmed forms must return nan (docstring), the winsorised forms are not judged",
+        "normalize(mass=0, zsum=True, zmass): the specification reads 'counterbalance' as 'the last member carries minus the sum of the "
+        "others' and 'member scaling' as 'the others are the L1-normalised members times zmass'",
+        "distance functions are judged on 2-D point arrays (and 1-D points with dmin=2), integer coordinates; the optimizer-based "
+        "graphical_distance and the impose_expected_* family are out of scope; is_feasible / infeasibility with cutoff >= 0",
         "the exact measuring instruments of the harness (mean, central moments, spread, total, product, median, MAD, trimmed and "
         "winsorised means/variances on Fractions) are calibrated against TLC's values on every initial state, and are then applied "
         "to the floats mystic returns; a reached/kept observable is compared at abs 1e-12 + rel 1e-9",
@@ -798,6 +935,8 @@ def selftest(a):
     jobs = plan(a)
     # keep the self-test short: 4 definition shards + 2 sequence shards, TLC once
     jobs = [("defs", "MC_Moments_defs_quick.cfg", 64, i) for i in range(0, 64, 4)] + [j for j in jobs if j[0] == "seq"][:2]
+    # second / third part: one Stats shard (shard 0 carries the normalisation table) and the StatsDist run with moves
+    jobs += [("stats", "MC_Stats_defs_quick.cfg", 6, 0), ("stats", "MC_Stats_defs_quick.cfg", 6, 3), ("dist", "MC_StatsDist_moves_quick.cfg", 2, 0)]
     t0 = time.time()
     outs = pool_map(run_job, [("tlc-only",) + j[1:] for j in jobs], a.jobs)
     for j, o in zip(jobs, outs):
@@ -816,6 +955,7 @@ def selftest(a):
     if base:
         print("selftest: note -- the unmutated tree already has violations: %s" % sorted(base)[:8])
     orig = {k: getattr(mm, k) for k in dir(mm) if not k.startswith("__")}
+    orig_md = {k: getattr(md, k) for k in dir(md) if not k.startswith("__")}
     orig_L = md.Lnorm
 
     def m_sample_variance():
@@ -915,6 +1055,72 @@ def selftest(a):
     def m_corrupt_expected():
         CORRUPT["on"] = True
 
+    # ---- mutants for the second / third part (Stats.tla, StatsDist.tla)
+    def m_standard_moment_variance_power():
+        mm.standard_moment = lambda samples, weights=None, order=1, tol=0: \
+            1.0 if order == 2 else orig["moment"](samples, weights, order, tol) / orig["variance"](samples, weights) ** order
+
+    def m_kurtosis_excess():
+        mm.kurtosis = lambda samples, weights=None: orig["standard_moment"](samples, weights, order=4) - 3.0
+
+    def m_support_ignores_tol():
+        mm.support = lambda samples, weights, tol=0: orig["support"](samples, weights, 0)
+
+    def m_select_strict():
+        def weighted_select(samples, weights, mass=1.0):
+            from mystic.tools import random_state
+            rand = random_state().random
+            wts = np.cumsum(mm.normalize(weights, mass))
+            wts[-1] = mass
+            w = mass * rand()
+            return samples[len(wts[wts < w])]
+        mm.weighted_select = weighted_select
+
+    def m_tstd_ignores_clip():
+        mm.tstd = lambda samples, weights=None, k=0, clip=False: np.sqrt(orig["tvariance"](samples, weights, k, False))
+
+    def m_impose_mad_moves_median():
+        def impose_mad(s, samples, weights=None):
+            samples = np.asarray(list(samples))
+            _mad = mm.mad(samples, weights)
+            if not _mad:
+                return [np.nan] * len(samples)
+            return list(samples * (float(s) / _mad))
+        mm.impose_mad = impose_mad
+
+    def m_zsum_ignores_zmass():
+        mm.normalize = lambda weights, mass='l2', zsum=False, zmass=1.0: orig["normalize"](weights, mass, zsum, 1.0)
+
+    def m_normalize_abs_sum():
+        def normalize(weights, mass='l2', zsum=False, zmass=1.0):
+            if isinstance(mass, str) or not float(mass):
+                return orig["normalize"](weights, mass, zsum, zmass)
+            w = np.asarray(list(weights), dtype=float)
+            return list(mass * w / np.sum(np.abs(w)))          # total of the absolute values instead of the total
+        mm.normalize = normalize
+
+    def m_lipschitz_metric_ignores_L():
+        md.lipschitz_metric = lambda L, x, xp=None: orig_md["lipschitz_metric"](np.ones(len(L)), x, xp)
+
+    def m_infeasibility_strict():
+        def infeasibility(distance, cutoff=0.0):
+            distance = np.array(distance)
+            if cutoff is not None:
+                if len(distance.shape) == 0:
+                    return 0.0 if distance < cutoff else distance
+                distance[distance < cutoff] = 0.0
+            return distance
+        md.infeasibility = infeasibility
+
+    def m_lnorm_axis_swapped():
+        md.Lnorm = lambda weights, p=1, axis=None: orig_L(weights, p, None if axis is None else 1 - axis)
+
+    def m_chebyshev_pairwise_is_matrix():
+        md.chebyshev = lambda x, xp=None, pair=False, dmin=0, axis=None: orig_md["chebyshev"](x, xp, pair=False, dmin=dmin, axis=0 if pair else axis)
+
+    def m_corrupt_expected_stats():
+        CORRUPT["stats"] = True
+
     mutants = [("variance uses the sample (n-1) form instead of the population form", m_sample_variance),
                ("impose_mean ignores the weights", m_mean_unweighted_shift),
                ("impose_collapse drops the collapsed weight", m_collapse_loses_weight),
@@ -929,7 +1135,20 @@ def selftest(a):
                ("_k rounds the trimming cut to whole numbers", m_tmean_rounds_cut),
                ("impose_unweighted never zeroes position 0", m_unweighted_keeps_weight_on_first),
                ("impose_unweighted(nullable=False) rescue tests the original total", m_unweighted_rescue_tests_original_total),
-               ("one expected value from TLC corrupted (no mutation of mystic)", m_corrupt_expected)]
+               ("one expected value from TLC corrupted (no mutation of mystic)", m_corrupt_expected),
+               ("[stats] standard_moment divides by variance^order instead of std^order", m_standard_moment_variance_power),
+               ("[stats] kurtosis returns the excess kurtosis", m_kurtosis_excess),
+               ("[stats] support ignores tol", m_support_ignores_tol),
+               ("[stats] weighted_select compares with < (a leading zero-weight point can be selected)", m_select_strict),
+               ("[stats] tstd ignores clip", m_tstd_ignores_clip),
+               ("[stats] impose_mad does not restore the median", m_impose_mad_moves_median),
+               ("[stats] normalize(zsum) ignores zmass", m_zsum_ignores_zmass),
+               ("[stats] normalize(mass) divides by the sum of absolute values", m_normalize_abs_sum),
+               ("[dist] lipschitz_metric ignores the Lipschitz constants", m_lipschitz_metric_ignores_L),
+               ("[dist] infeasibility keeps a distance equal to the cutoff", m_infeasibility_strict),
+               ("[dist] Lnorm takes the norm along the other axis", m_lnorm_axis_swapped),
+               ("[dist] chebyshev(pair=True) returns the distance matrix reduction", m_chebyshev_pairwise_is_matrix),
+               ("[stats/dist] expected values of the Stats / StatsDist emission corrupted (no mutation of mystic)", m_corrupt_expected_stats)]
     missed = 0
     for name, mut in mutants:
         mut()
@@ -939,9 +1158,12 @@ def selftest(a):
             viol = {"mutant-raised:" + type(ex).__name__: 1}
         for k, v in orig.items():
             setattr(mm, k, v)
+        for k, v in orig_md.items():
+            setattr(md, k, v)
         md.Lnorm = orig_L
         md.hamming = HAMMING
         CORRUPT["on"] = False
+        CORRUPT["stats"] = False
         new = {k: v for k, v in viol.items() if v > base.get(k, 0)}
         print("SELFTEST %s: %s (%d violations; %s)" % (name, "caught" if new else "MISSED", sum(new.values()), ", ".join(sorted(new)[:4])))
         missed += 0 if new else 1
